@@ -19,7 +19,7 @@ from ..corpus import b64, unb64
 
 PROP = "C15"
 LEVEL = "fault_enumeration"
-COUNTS = {"quick": 220, "thorough": 2600}
+COUNTS = {"quick": 300, "thorough": 2600}
 WALL = {"quick": 170, "thorough": 3300}
 RULE = (
     "scenario = seeded workload (1-5 pool documents, names, scan|fix, flags, world) + list of faults drawn from the sites "
@@ -245,7 +245,10 @@ def generate(rng, tier, index):
     mode = rng.choice(["scan", "fix", "fix"])
     count = rng.choice([1, 2, 2, 3, 3, 4, 5])
     need = ["fixable"] if mode == "fix" and rng.random() < 0.7 else None
-    docs = workload.draw_docs(rng, count, need=need)
+    # a third of the workloads take their documents from one carrier group, so that a
+    # failing document is followed by one that is sensitive to the same kind of state
+    group = rng.choice(["lrd", "heading", "list", "fence", "quote", "ws", "inline", "pragma"]) if rng.random() < 0.35 else None
+    docs = workload.draw_docs(rng, count, need=need if group is None else None, prefer_group=group)
     if mode == "fix" and rng.random() < 0.15:
         docs[rng.randrange(len(docs))] = ("edge_2000_fixable", carriers.CARRIERS["edge_2000_fixable"][0])
     files, labels = workload.assign_names(rng, docs)
